@@ -698,8 +698,9 @@ fn run_for_panic<D: Store + Mk>(parsed: &ParseResult, ntok: usize, hk: HostK, ma
                 return None;
             }
             Err(Fail::Panic(_, msg, loc)) => {
-                let _ = msg;
-                return Some(format!("panic|{}|run", panic_site(&loc)));
+                // message with numbers removed: one signature per kind of panic at a site
+                let class: String = msg.chars().filter(|c| !c.is_ascii_digit()).take(70).collect();
+                return Some(format!("panic|{}|run|{}", panic_site(&loc), class));
             }
         }
     }
@@ -730,10 +731,8 @@ fn judge_c07(src: &str, kind: &str, max_steps: u64, acc: &mut Acc) {
         acc.count(&format!("raw::{}", raw));
         if seen < 6 {
             let witness = minimize(src, &c07_key);
-            let msg = crate::util::take_panic();
-            let _ = msg;
             acc.violation(
-                format!("{}|{}", raw, witness),
+                raw.clone(),
                 format!("executing {:?} panicked ({}; minimised witness {:?}, corpus {}): {}", src.chars().take(200).collect::<String>(), whr, witness, kind, raw),
                 Json::obj().with("input", Json::s(src)).with("witness", Json::s(witness.clone())).with("corpus", Json::s(kind)),
             );
@@ -772,7 +771,7 @@ pub const FIXED: [&str; 24] = [
     "f` 5 `g` 6 `h",
 ];
 
-pub const BOUNDARY_LITS: [&str; 34] = [
+pub const BOUNDARY_LITS: [&str; 40] = [
     "2147483647",
     "2147483648",
     "0",
@@ -796,8 +795,8 @@ pub const BOUNDARY_LITS: [&str; 34] = [
     "(0..2)",
     "(5..1)",
     "(1 <> 2)",
-    "((1 2 3) ~ (0..10))",
-    "(\"abc\" ~ (1..9))",
+    "((1 2 3) <~ (0..10))",
+    "(\"hello\" <~ (3..0))",
     "(1 = 2)",
     ":sym",
     "(:a.b)",
@@ -807,6 +806,12 @@ pub const BOUNDARY_LITS: [&str; 34] = [
     "{ $ }",
     "(0 - 1)",
     "(0 - 2147483647 - 1)",
+    "(\"abc\" <~ (1..9))",
+    "('ab' <~ (0..5))",
+    "((1 2 3 <~ (1..2)) <~ (0..0))",
+    "((1 <> 2 <> 3) <~ (2..0))",
+    "(4..2)",
+    "(1 2)",
 ];
 
 pub const BOUNDARY_OPS: [&str; 36] = [
